@@ -735,7 +735,7 @@ def check_no_self_overwrite(ck, prog, config, clause, unit='src/unzck.c'):
                 return None
             if n is not None and n.startswith('zck_') and n not in ('zck_set_log_level', 'zck_set_log_fd'):
                 return None       # the files are open by the time the library is used: the rest is not this rule's
-            if n in ('snprintf', 'strcat', 'strncat') and len(call.a) > 2:
+            if n in ('snprintf', 'strcat', 'strncat', 'memcpy', 'strcpy', 'stpcpy', 'strncpy', 'mempcpy') and len(call.a) > 2:
                 d = [x for x in walk(call.a[1]) if x.k == 'var' and x.decl in outs]
                 # text that is certainly appended: a literal without directives, the literal part of a format, or a
                 # local that holds a non-empty literal on this path
